@@ -667,7 +667,7 @@ func checkAuthDifference(c *fw.Ctx) {
 			okDiff = true
 		}
 	}
-	c.Check(okDiff, rule, "auth difference = union minus intersection", c.P.Pos(fn.Pos()), "", "no Difference call")
+	c.Expect(okDiff, rule, "auth difference = union minus intersection", c.P.Pos(fn.Pos()), "", "no Difference call was recognised")
 	// v2 returns the plain difference; v2.1 adds the conflicted subgraph
 	for _, r := range fw.Returns(fn) {
 		s := fw.Sig(r.Results[0])
